@@ -335,3 +335,289 @@ func (c *Ctx) ruleConsumeTagExact(rule string) {
 		R.Unk(rule, fi.Key, P.Pos(fi.Decl), "expected the two error returns (varint error, field number)")
 	}
 }
+
+// R-PARSE-WIDTH: json.Token.Int(bitSize)/Uint(bitSize) range-check the number
+// for bitSize bits and return a 64-bit value. Narrowing that value to a type of
+// fewer bits is exact only if the parse was asked for at most that many bits:
+// a constant bitSize no larger than the target, or a variable bitSize tested
+// equal to the target width on the path.
+func (c *Ctx) ruleParseWidth(rule string, pkg string, floor int) {
+	R, P := c.R, c.P
+	R.Rule(rule, "in "+pkg+" every conversion of a value parsed by json.Token.Int(k)/Uint(k) to an integer type of w < 64 bits has k <= w: k constant, or the conversion dominated by `k == w`", floor)
+	width := func(t types.Type) int {
+		b, ok := t.Underlying().(*types.Basic)
+		if !ok {
+			return 0
+		}
+		switch b.Kind() {
+		case types.Int8, types.Uint8:
+			return 8
+		case types.Int16, types.Uint16:
+			return 16
+		case types.Int32, types.Uint32:
+			return 32
+		case types.Int64, types.Uint64, types.Int, types.Uint:
+			return 64
+		}
+		return 0
+	}
+	for _, fi := range P.FuncsIn(pkg) {
+		if fi.Decl.Body == nil {
+			continue
+		}
+		info := fi.Info()
+		parsed := map[types.Object]ast.Expr{} // value → bitSize argument
+		walkAll(fi.Decl.Body, func(n ast.Node) bool {
+			as, ok := n.(*ast.AssignStmt)
+			if !ok || len(as.Rhs) != 1 || len(as.Lhs) != 2 {
+				return true
+			}
+			call, ok := unparen(as.Rhs[0]).(*ast.CallExpr)
+			if !ok || len(call.Args) != 1 {
+				return true
+			}
+			k := calleeKey(info, call)
+			if k == "internal/encoding/json.Token.Int" || k == "internal/encoding/json.Token.Uint" {
+				if o := objOf(info, as.Lhs[0]); o != nil {
+					parsed[o] = call.Args[0]
+				}
+			}
+			return true
+		})
+		if len(parsed) == 0 {
+			continue
+		}
+		var g *FCFG
+		i := 0
+		walkAll(fi.Decl.Body, func(n ast.Node) bool {
+			call, ok := n.(*ast.CallExpr)
+			if !ok || len(call.Args) != 1 {
+				return true
+			}
+			tv, ok := info.Types[call.Fun]
+			if !ok || !tv.IsType() {
+				return true
+			}
+			w := width(tv.Type)
+			o := objOf(info, call.Args[0])
+			bits, isParsed := parsed[o]
+			if !isParsed || w == 0 || w >= 64 {
+				return true
+			}
+			i++
+			key := fi.Key + " narrows " + o.Name() + " to " + types.TypeString(tv.Type, func(p *types.Package) string { return p.Name() }) + " #" + itoa(i)
+			if k, ok := constInt(info, bits); ok {
+				R.Check(int(k) <= w, rule, key, P.Pos(call), "parsed for "+itoa(int(k))+" bits", "the number was range-checked for "+itoa(int(k))+" bits but is converted to a "+itoa(w)+"-bit type: values outside the "+itoa(w)+"-bit range wrap around instead of being rejected (4294967297 becomes 1)")
+				return true
+			}
+			if g == nil {
+				g = fi.CFG()
+			}
+			bo := objOf(info, bits)
+			ok = bo != nil && g.DominatedByCond(call, func(core ast.Expr, val bool) bool {
+				be, isBE := unparen(core).(*ast.BinaryExpr)
+				if !isBE || be.Op != token.EQL || !val {
+					return false
+				}
+				x, y := be.X, be.Y
+				if objOf(info, x) != bo {
+					x, y = y, x
+				}
+				v, isC := constInt(info, y)
+				return objOf(info, x) == bo && isC && int(v) <= w
+			})
+			R.Check(ok, rule, key, P.Pos(call), "under `"+exprStr(bits)+" == "+itoa(w)+"`", "the number was range-checked for `"+exprStr(bits)+"` bits, which is not established to be at most "+itoa(w)+" where it is converted to a "+itoa(w)+"-bit type: out-of-range values wrap around")
+			return true
+		})
+	}
+}
+
+// R-BASE64-SELECT: protojson accepts standard and URL-safe base64, each with
+// or without padding. The alphabet and the padding are independent decisions;
+// the selection is evaluated for the four combinations of "contains - or _"
+// and "length is not a multiple of four".
+func (c *Ctx) ruleBase64Select(rule string) {
+	R, P := c.R, c.P
+	R.Rule(rule, "protojson.unmarshalBytes, evaluated over the atoms `ContainsAny(s, \"-_\")` and `len(s)%4 != 0`, decodes with the URL alphabet iff the first holds and without padding iff the second holds (four combinations)", 1)
+	fi := c.need(rule, "encoding/protojson.unmarshalBytes")
+	if fi == nil {
+		return
+	}
+	info := fi.Info()
+	type encv struct {
+		url, raw bool
+		ok       bool
+	}
+	var encObj types.Object
+	atom := func(e ast.Expr) (string, bool) {
+		s := strings.ReplaceAll(exprStr(unparen(e)), " ", "")
+		switch {
+		case strings.HasPrefix(s, "strings.ContainsAny(") && (strings.HasSuffix(s, `,"-_")`) || strings.HasSuffix(s, `,"_-")`)):
+			return "A", true
+		case s == "len(s)%4!=0" || s == "len(s)%4>0":
+			return "B", true
+		case s == "len(s)%4==0":
+			return "!B", true
+		}
+		return "", false
+	}
+	constEnc := func(e ast.Expr, cur encv) (encv, bool) {
+		s := exprStr(unparen(e))
+		switch s {
+		case "base64.StdEncoding":
+			return encv{false, false, true}, true
+		case "base64.URLEncoding":
+			return encv{true, false, true}, true
+		case "base64.RawStdEncoding":
+			return encv{false, true, true}, true
+		case "base64.RawURLEncoding":
+			return encv{true, true, true}, true
+		}
+		if call, ok := unparen(e).(*ast.CallExpr); ok && len(call.Args) == 1 {
+			if se, ok := call.Fun.(*ast.SelectorExpr); ok && se.Sel.Name == "WithPadding" {
+				base, ok := unparen(se.X).(*ast.Ident)
+				if ok && info.Uses[base] == encObj && cur.ok {
+					switch exprStr(call.Args[0]) {
+					case "base64.NoPadding":
+						return encv{cur.url, true, true}, true
+					case "base64.StdPadding":
+						return encv{cur.url, false, true}, true
+					}
+				}
+			}
+		}
+		return encv{}, false
+	}
+	var wrong []string
+	undec := ""
+	for _, A := range []bool{false, true} {
+		for _, B := range []bool{false, true} {
+			truth := func(e ast.Expr) (bool, bool) {
+				a, ok := atom(e)
+				switch a {
+				case "A":
+					return A, ok
+				case "B":
+					return B, ok
+				case "!B":
+					return !B, ok
+				}
+				return false, false
+			}
+			var cur encv
+			var run func(list []ast.Stmt) bool // false: stop (decode reached)
+			run = func(list []ast.Stmt) bool {
+				for _, st := range list {
+					switch x := st.(type) {
+					case *ast.AssignStmt:
+						if len(x.Lhs) == 1 && len(x.Rhs) == 1 {
+							if id, ok := x.Lhs[0].(*ast.Ident); ok {
+								o := info.Defs[id]
+								if o == nil {
+									o = info.Uses[id]
+								}
+								if v, ok := constEnc(x.Rhs[0], cur); ok {
+									encObj, cur = o, v
+									continue
+								}
+								if o == encObj && encObj != nil {
+									undec = "assignment `" + exprStr(x.Rhs[0]) + "` to the encoding"
+								}
+							}
+							if strings.Contains(exprStr(x.Rhs[0]), "DecodeString(") {
+								return false
+							}
+						} else if len(x.Rhs) == 1 && strings.Contains(exprStr(x.Rhs[0]), "DecodeString(") {
+							return false
+						}
+					case *ast.IfStmt:
+						if _, isAtom := atom(x.Cond); !isAtom {
+							continue // tests on the token kind etc.
+						}
+						t, _ := truth(x.Cond)
+						if t {
+							if !run(x.Body.List) {
+								return false
+							}
+						} else if x.Else != nil {
+							if blk, ok := x.Else.(*ast.BlockStmt); ok {
+								if !run(blk.List) {
+									return false
+								}
+							} else if !run([]ast.Stmt{x.Else}) {
+								return false
+							}
+						}
+					case *ast.SwitchStmt:
+						if x.Tag != nil {
+							continue
+						}
+						taken := false
+						var deflt *ast.CaseClause
+						for _, cl := range x.Body.List {
+							cc := cl.(*ast.CaseClause)
+							if cc.List == nil {
+								deflt = cc
+								continue
+							}
+							for _, e := range cc.List {
+								t, ok := truth(e)
+								if !ok {
+									undec = "case `" + exprStr(e) + "`"
+								}
+								if t && !taken {
+									taken = true
+									if !run(cc.Body) {
+										return false
+									}
+								}
+							}
+						}
+						if !taken && deflt != nil {
+							if !run(deflt.Body) {
+								return false
+							}
+						}
+					}
+				}
+				return true
+			}
+			encObj = nil
+			run(fi.Decl.Body.List)
+			if !cur.ok {
+				undec = "encoding not determined"
+				continue
+			}
+			if cur.url != A || cur.raw != B {
+				name := func(v encv) string {
+					s := "Std"
+					if v.url {
+						s = "URL"
+					}
+					if v.raw {
+						return "Raw" + s + "Encoding"
+					}
+					return s + "Encoding"
+				}
+				in := "standard alphabet"
+				if A {
+					in = "URL-safe alphabet"
+				}
+				if B {
+					in += ", unpadded length"
+				} else {
+					in += ", length a multiple of four"
+				}
+				wrong = append(wrong, in+": decoded with "+name(cur)+" instead of "+name(encv{A, B, true}))
+			}
+		}
+	}
+	switch {
+	case undec != "":
+		R.Unk(rule, fi.Key, P.Pos(fi.Decl), "cannot evaluate the encoding selection: "+undec)
+	case len(wrong) > 0:
+		R.Bad(rule, fi.Key, P.Pos(fi.Decl), strings.Join(wrong, "; ")+": valid base64 of that shape is rejected (or decoded with the wrong alphabet)")
+	default:
+		R.OK(rule, fi.Key, P.Pos(fi.Decl), "alphabet and padding chosen independently; 4 combinations correct")
+	}
+}
